@@ -5,7 +5,8 @@ From Dashu Require Import Base.Prelude Float.RoundSpec Float.RoundSpecProof Floa
   Int.IoSpec Float.TextIoSpec Float.TextIoModel Float.BaseConvProof Float.TextIoProof Float.SciProof Float.ParseProof Float.ParseSound Float.TextIoExamples
   Conv.ConvSpec Conv.ConvModel Float.IeeeImportModel Float.IeeeImportProof Float.LargeExpBound Float.LargeExpRoute
   Float.AddModel Float.ElemF32 Float.ElemAsis Float.LargeExpAsis Float.LargeExpAsisProof
-  Float.WithBasePrec Float.WithBasePrecProof Float.WithBasePrecRule.
+  Float.WithBasePrec Float.WithBasePrecProof Float.WithBasePrecRule Float.FmtPadProof Float.PartsConstModel Float.PartsConstProof
+  Float.DebugSpec Float.DebugSpecExamples.
 From DashuGen Require Import RoundTables ConvBaseGen.
 Open Scope Z_scope.
 
@@ -232,10 +233,7 @@ Theorem C08_gen_large_work_precision : forall p e B NB, 2 <= NB -> 2 <= B -> 1 <
   let wp := large_work_precision_gen p e B NB in
   wp = 2 * p + dlen NB (e * ElemF32.bit_len B) /\ 2 * p < wp /\
   NB ^ (2 * p - 1) * (Z.abs e * ElemF32.bit_len B) < NB ^ (wp - 1).
-Proof.
-  intros p e B NB H1 H2 H3 H4 wp. split; [exact (gen_large_work_precision p e B NB)|].
-  exact (gen_large_work_precision_covers p e B NB H1 H2 H3 H4).
-Qed.
+Proof. exact gen_large_work_precision_full. Qed.
 Print Assumptions C08_gen_large_work_precision.
 
 Theorem C08_gen_with_base_precision_formula : forall (F : Type) (O : f32ops F) W B NB p,
@@ -359,6 +357,65 @@ Theorem C08_large_work_precision_before_fix_refuted :
   large_route_check_wp 4 10 2 3 14 (-39) 9 (10 ^ 39) 3 (-128) = Some true.
 Proof. exact large_work_precision_ex. Qed.
 Print Assumptions C08_large_work_precision_before_fix_refuted.
+
+(** ** round 3: the WHOLE printed text (sign, body, padding) of Display and of LowerExp / UpperExp as modelled (the
+    width the code computes from the parts it prints, the split of the padding by zero flag and alignment) equals
+    the specified text: pad_spec (the convention of core::fmt for numbers: the zero flag pads with zeros after the
+    sign and overrides fill and alignment, otherwise fill characters by alignment, right by default) around the
+    specified body - for every width, fill, alignment, sign flag and precision.  True since the repair F08. *)
+
+Theorem C08_display_full_text_asis_spec : forall B, 2 <= B -> forall m f s e prec,
+  (s = 0 -> e = 0) -> (forall p, prec = Some p -> 0 <= p) ->
+  fmt_round_asis B m f s e prec = display_spec B m f s e prec.
+Proof. exact display_full_text_asis_spec. Qed.
+Print Assumptions C08_display_full_text_asis_spec.
+
+Theorem C08_sci_full_text_asis_spec : forall B, 2 <= B -> forall m upper f s e prec,
+  (s = 0 -> e = 0) -> (forall p, prec = Some p -> 0 <= p) ->
+  sci_asis B m upper f s e prec = sci_spec B m upper f s e prec.
+Proof. exact sci_full_text_asis_spec. Qed.
+Print Assumptions C08_sci_full_text_asis_spec.
+
+(** ** round 3: FBig::from_parts_const (what the literal macros fbig! / dbig! expand to for short significands; longer ones
+    expand to Repr::new + Context::new(digits counted by the parser) + from_repr): the digit counting loop returns the
+    number of digits for EVERY DoubleWord significand, also when the next power of the base overflows (repair F09),
+    and the non-power-of-two branch as a whole is the specification (normalised value, precision = max (digits, min)) *)
+
+Theorem C08_from_parts_const_digits : forall B, 2 <= B -> forall W s, 1 <= W -> 0 < s < 2 ^ (2 * W) ->
+  digits_loop (Z.to_nat (2 * W + 1)) (2 ^ (2 * W)) B s 1 1 = dlen B s.
+Proof. exact digits_loop_correct. Qed.
+Print Assumptions C08_from_parts_const_digits.
+
+Theorem C08_from_parts_const_asis_spec : forall W B neg sig e minp, 1 <= W -> 2 <= B -> is_pow2 B = false ->
+  0 < sig < 2 ^ (2 * W) -> (forall p, minp = Some p -> 0 <= p) ->
+  from_parts_const_asis W B neg sig e minp = from_parts_const_spec B neg sig e minp.
+Proof. exact from_parts_const_asis_spec. Qed.
+Print Assumptions C08_from_parts_const_asis_spec.
+
+Theorem C08_from_parts_const_before_fix_refuted :
+  digits_loop_old (Z.to_nat 129) (2 ^ 128) 10 (10 ^ 38) 1 0 = 38 /\
+  digits_loop (Z.to_nat 129) (2 ^ 128) 10 (10 ^ 38) 1 1 = 39 /\ dlen 10 (10 ^ 38) = 39.
+Proof. exact from_parts_const_before_fix_refuted. Qed.
+Print Assumptions C08_from_parts_const_before_fix_refuted.
+
+(** FromStr for FBig is FBig::from_str_native (no difference; regenerated tie fbig_parse_precision_gen): the text is
+    accepted iff the documented grammar accepts it, with the written value and the number of written digits *)
+Theorem C08_fbig_from_str_iff : forall B text v, radix_valid B = true ->
+  (fbig_from_str_asis B text = Ok v <-> parse_spec B text = Some v).
+Proof. exact fbig_from_str_iff. Qed.
+Print Assumptions C08_fbig_from_str_iff.
+
+(** the specified Debug texts (Float/DebugSpec.v; compared with the implementation as whole texts) on two floats:
+    "-1234 * 10 ^ -2 (prec: 5)" and the pretty form "Repr {\n    significand: 5 (3 bits),\n    exponent: 2 ^ 7,\n}" *)
+Theorem C08_debug_spec_examples :
+  fbig_debug_spec 19 (2 ^ 128) 10 (-1234) (-2) 5 =
+    [45; 49; 50; 51; 52; 32; 42; 32; 49; 48; 32; 94; 32; 45; 50; 32; 40; 112; 114; 101; 99; 58; 32; 53; 41] /\
+  repr_debug_alt_spec 19 (2 ^ 128) 2 5 7 =
+    [82; 101; 112; 114; 32; 123; 10;
+     32; 32; 32; 32; 115; 105; 103; 110; 105; 102; 105; 99; 97; 110; 100; 58; 32; 53; 32; 40; 51; 32; 98; 105; 116; 115; 41; 44; 10;
+     32; 32; 32; 32; 101; 120; 112; 111; 110; 101; 110; 116; 58; 32; 50; 32; 94; 32; 55; 44; 10; 125].
+Proof. exact debug_spec_examples. Qed.
+Print Assumptions C08_debug_spec_examples.
 
 (** ** round 3: the precision FBig::with_base chooses, (B^p).log2_bounds().0 / NewB.log2_bounds().1 as usize, as it is:
     the two f32 bounds as dyadic numbers lb = m1 * 2^e1, ub = m2 * 2^e2 (brought to a common scale: lb / ub = L / U),
